@@ -16,7 +16,7 @@ import warnings
 SHAPES = ["chain", "cycle", "selfref", "diamond", "inline_array", "shared_array", "inline_list", "shared_list",
           "cyclic_inline_list", "cyclic_shared_list", "many_small_collections", "top_fan", "deep_types", "type_ref_ladder",
           "prim_lists", "cyclic_inline_int_list", "cyclic_inline_float_list", "cyclic_inline_string_list",
-          "cyclic_shared_prim_list", "nested_arrays", "nested_collections", "merged_types"]
+          "cyclic_shared_prim_list", "nested_arrays", "nested_collections", "merged_types", "colliding_packages"]
 DEPTH = 60
 ADDRESS_SPACE_CAP = 4 * 1024 ** 3        # a loop that does not end usually also allocates without end: MemoryError, not swap
 
@@ -96,6 +96,22 @@ def add_ladder(ts, depth):
         ts.create_feature(t, "a", "r.L%d" % (i + 1))
         ts.create_feature(t, "b", "r.L%d" % (i + 1))
         ts.create_feature(t, "arr", "uima.cas.FSArray", elementType="r.L%d" % (i + 1))
+
+
+def package_names(n):
+    """n / 10 packages that all end in `type` (the XMI writer names a namespace prefix after the last component of the
+    package and numbers the later ones: type0, type1, ...), a few packages that ARE called like such numbered prefixes, and
+    packages named after the prefixes the writer reserves for itself."""
+    k = max(3, n // 10)
+    numbered = ["c.type%d" % j for j in sorted({0, 1, 5, k // 2, k - 2, k})]
+    return numbered[:2] + ["c.v%d.type" % i for i in range(k)] + numbered[2:] + ["c.cas0", "c.cas", "c.xmi", "c.xmi0", "c.v1.cas"]
+
+
+def add_packages(ts, n):
+    for p in package_names(n):
+        t = ts.create_type(p + ".Node", "uima.cas.TOP")
+        ts.create_feature(t, "next", "uima.cas.TOP")
+        ts.create_feature(t, "arr", "uima.cas.FSArray")
 
 
 def build(cassis, shape, n):
@@ -261,6 +277,17 @@ def build(cassis, shape, n):
         p.tarr = Arr(elements=[inner[1], inner[1]])
         p.lst = mklist(ts, [inner[-1], inner[2 % len(inner)]])
         cas.add(p)
+    elif shape == "colliding_packages":
+        # one ring of n structures through the types of all packages, every tenth one also holds its neighbours in an array
+        add_packages(ts, n)
+        pk = package_names(n)
+        nodes = [ts.get_type(pk[(7 * i) % len(pk)] + ".Node")() for i in range(n)]
+        for i, x in enumerate(nodes):
+            x.next = nodes[(i + 1) % n]
+            if i % 10 == 0:
+                x.arr = Arr(elements=[nodes[i - 1], x, nodes[(i + 1) % n]])
+        cas.add(nodes[0])
+        cas.add(nodes[n // 2])
     else:
         raise ValueError(shape)
     return ts, cas
@@ -327,6 +354,18 @@ def main():
     timed(times, errors, "count_subtypes", count_work)
     timed(times, errors, "select", queries)
     timed(times, errors, "cas_to_comparable_text", lambda: cas_to_comparable_text(cas))
+
+    def listing_with_arguments():
+        # the optional arguments of the listing: leaving out the collection types, leaving out everything else (no index
+        # marks, no covered text), explicit seeds
+        found = {fs.type.name for fs in cas._find_all_fs()}
+        colls = {t for t in found if t.startswith("uima.cas.") and (t.endswith("Array") or t.endswith("List"))}
+        k = len(cas_to_comparable_text(cas, exclude_types=colls | {"uima.cas.FSArray"}) or "")
+        k += len(cas_to_comparable_text(cas, exclude_types=found - colls, mark_indexed=False, covered_text=False) or "")
+        k += len(cas_to_comparable_text(cas, seeds=list(cas.select_all())[:50], exclude_types={"uima.cas.FSArray"}) or "")
+        return k
+
+    timed(times, errors, "cas_to_comparable_text_args", listing_with_arguments)
     print(json.dumps({"shape": shape, "n": n, "times": times, "errors": errors, "work": work}))
 
 
